@@ -262,7 +262,10 @@ def main(ck):
                      # parse watchdog: generous, so that it can only fire on a real hang (a parse takes milliseconds; the
                      # parser's own no-progress guard is count-based), never because the machine is loaded.  The run budget is
                      # short: a mutant that loops forever is counted, not reported.
-                     "budget_ms": max(30000, 2000 * kb), "run_budget_ms": 2000})
+                     "budget_ms": max(30000, 2000 * kb), "run_budget_ms": 2000,
+                     # sources too long for the lexer tie do not need their token list back (the engine reports the
+                     # token count and the bracket-balance verdict itself): keeps the thorough tier's memory bounded
+                     "maxtoks": 1 if len(c["hex"]) > 8000 else 0})
     outs = lexrun.run(binary, reqs, nproc=12)
     ck.log("real lexer + parser (+ interpreter on generated programs) ran")
 
@@ -299,7 +302,7 @@ def main(ck):
         elif p == "ok":
             stats["parse-ok"] += 1
             # an accepted source has balanced, properly nested ( ) [ ] { } tokens (no closing clause is missing)
-            unb = unbalanced(o.get("toks") or [], BR)
+            unb = o.get("unb", "") if o.get("ntoks") else unbalanced(o.get("toks") or [], BR)
             if unb:
                 stats["accepted-unbalanced"] = stats.get("accepted-unbalanced", 0) + 1
                 rep["clause"] = "the source was accepted although its bracket tokens do not balance: " + unb
@@ -470,7 +473,7 @@ def main(ck):
     ck.cov["tie_inputs"] = len(perm)
     ck.cov["model_unsupported_inputs"] = unsup
     distinct = len(set((c["hex"], c["mode"]) for c in cases))
-    nontriv = len(set((c["hex"], c["mode"]) for c, o in zip(cases, outs) if len(o.get("toks") or []) >= 3))
+    nontriv = len(set((c["hex"], c["mode"]) for c, o in zip(cases, outs) if (o.get("ntoks") or len(o.get("toks") or [])) >= 3))
     ck.finish(level="proof", evaluations=len(cases), distinct_nontrivial=nontriv,
               rule="every source of 1 and 2 tokens and a seeded sample (thorough: all) of 3-token sources over a 48-token alphabet; "
                    "a seeded sample (thorough: all) of the corpus files (first 2500 bytes quick) and grammar-generated side-effect-free "
